@@ -134,7 +134,8 @@ def gen_scenario(rnd, shape):
         b.sleep(0)
     rollout = existing and shape["rollout"]
     n = shape["n"]
-    dt = rnd.choice([2 * SEC, 3 * SEC, 3 * SEC + 500 * MS])
+    # also deploy timeouts well above 5 s (the default is 30 s): anything periodic inside the wait gets a chance to show
+    dt = rnd.choice([2 * SEC, 3 * SEC, 3 * SEC + 500 * MS, 5 * SEC + 500 * MS, 7 * SEC, 12 * SEC + 500 * MS])
     mix = shape["mix"]
     if mix == "all_ok":
         kinds = [rnd.choice(["ok", "ok", "late", "slowok"]) for _ in range(n)]
